@@ -554,6 +554,7 @@ func runC16(c *Ctx) {
 			"'.' + base64url(aad) is appended exactly when the additional data is non-empty",
 			"the additional authenticated data is not appended under a 'len(aad) > 0' guard: with a nil-ness test an empty non-nil aad is authenticated as '<protected>.' when encrypting but as '<protected>' after parsing (the empty member is not serialised), so the object cannot be decrypted", nil)
 	}
+	checkJoseInputsNotModified(c)
 	checkJoseParseKeepsProtected(c)
 	checkJoseInflateWhole(c)
 	checkJoseTriesEveryRecipient(c)
@@ -770,4 +771,68 @@ func isReturnBlock(b *ssa.BasicBlock) bool {
 	}
 	_, ok := b.Instrs[len(b.Instrs)-1].(*ssa.Return)
 	return ok && len(b.Instrs) <= 3
+}
+
+
+// checkJoseInputsNotModified: the primitives that work on bytes owned by the parsed object (the wrapped key, the
+// ciphertext) compute on copies. Writing through the input corrupts the parsed object, so a second Decrypt - or a
+// Decrypt with the right key after one with a wrong key - fails although nothing was tampered with.
+func checkJoseInputsNotModified(c *Ctx) {
+	P, R := c.P, c.R
+	for _, t := range []struct {
+		pkg, fn string
+		param   int
+	}{{"https/jose/cipher", "KeyUnwrap", 1}, {"https/jose/cipher", "(*cbcAEAD).Open", 3}} {
+		fn := P.Func(t.pkg, t.fn)
+		if !R.Anchor(fn != nil && t.param < len(fn.Params), "C16.gate", t.pkg+"."+t.fn) {
+			continue
+		}
+		in := fn.Params[t.param]
+		derived := map[ssa.Value]bool{in: true}
+		tainted := map[ssa.Value]bool{} // containers (slices of slices) holding pieces of the input
+		for changed := true; changed; {
+			changed = false
+			core.EachInstr(fn, func(x ssa.Instruction) {
+				switch v := x.(type) {
+				case *ssa.Slice:
+					if derived[v.X] && !derived[v] {
+						derived[v], changed = true, true
+					}
+				case *ssa.Store:
+					if ia, ok := v.Addr.(*ssa.IndexAddr); ok && derived[v.Val] && !tainted[ia.X] {
+						tainted[ia.X], changed = true, true
+					}
+				case *ssa.UnOp:
+					if ia, ok := v.X.(*ssa.IndexAddr); ok && v.Op == token.MUL && tainted[ia.X] && !derived[v] {
+						derived[v], changed = true, true
+					}
+				case *ssa.Phi:
+					for _, e := range v.Edges {
+						if derived[e] && !derived[v] {
+							derived[v], changed = true, true
+						}
+					}
+				}
+			})
+		}
+		bad := ""
+		core.EachInstr(fn, func(x ssa.Instruction) {
+			switch v := x.(type) {
+			case *ssa.Call:
+				if b, ok := v.Call.Value.(*ssa.Builtin); ok && b.Name() == "copy" && derived[v.Call.Args[0]] {
+					bad = "copy into the input at " + P.InstrPos(v)
+				}
+				if v.Call.IsInvoke() && (v.Call.Method.Name() == "Decrypt" || v.Call.Method.Name() == "CryptBlocks" || v.Call.Method.Name() == "Encrypt") && len(v.Call.Args) > 0 && derived[v.Call.Args[0]] {
+					bad = "in-place cipher operation on the input at " + P.InstrPos(v)
+				}
+			case *ssa.Store:
+				if ia, ok := v.Addr.(*ssa.IndexAddr); ok && derived[ia.X] {
+					bad = "store into the input at " + P.InstrPos(v)
+				}
+			}
+		})
+		R.Check(bad == "", "C16.gate", "jose|"+t.fn+"|input-not-modified", P.Pos(fn.Pos()),
+			"the primitive computes on copies and leaves the bytes it was given untouched",
+			"the primitive writes through its input ("+bad+"): the parsed object's own bytes are altered by the first attempt, so decrypting it again (or with the right key after a wrong one) fails", nil)
+	}
 }
